@@ -52,8 +52,19 @@ pub fn resolve_res(
     crate::verif::note("prev", crate::verif::V::I(prev_value as i128));
     
     res.reserve_size =
-        <u32 as TryInto<usize>>::try_into(value).unwrap() *
-        bank.addr_unit;
+        match <u32 as TryInto<usize>>::try_into(value).unwrap()
+            .checked_mul(bank.addr_unit)
+        {
+            Some(size) => size,
+            None =>
+            {
+                report.error_span(
+                    "value is out of supported range",
+                    ast_res.expr.span());
+
+                return Err(());
+            }
+        };
 
 
     if res.reserve_size != prev_value
